@@ -1,12 +1,15 @@
 package e2eb
 
 import (
+	"context"
 	"crypto/rand"
 	"crypto/rsa"
+	"errors"
 	"net"
 	"sync"
 	"time"
 
+	"github.com/go-logr/logr"
 	"github.com/robinbraemer/event"
 	"go.minekube.com/gate/pkg/edition/java/config"
 	"go.minekube.com/gate/pkg/edition/java/proxy"
@@ -17,12 +20,13 @@ import (
 
 // ProxyOpts configures the proxy under test.
 type ProxyOpts struct {
-	ClientThreshold     int      // compression threshold towards clients (-1: off)
-	Try                 []string // try list (fallback order)
-	ConnectionTimeoutMs int      // effective backend connect/login (and write) timeout; 0: gate's default
-	ReadTimeoutMs       int      // effective read timeout; 0: gate's default
-	NoFailover          bool     // FailoverOnUnexpectedServerDisconnect = false
-	Online              bool     // online mode: real RSA/AES login against a scripted session server (e2e.NewAuth)
+	ClientThreshold     int       // compression threshold towards clients (-1: off)
+	Try                 []string  // try list (fallback order)
+	ConnectionTimeoutMs int       // effective backend connect/login (and write) timeout; 0: gate's default
+	ReadTimeoutMs       int       // effective read timeout; 0: gate's default
+	NoFailover          bool      // FailoverOnUnexpectedServerDisconnect = false
+	Sync                *SyncSink // scheduling aid: installed as the proxy's logger (needs Proxy.Start, see StartProxy)
+	Online              bool      // online mode: real RSA/AES login against a scripted session server (e2e.NewAuth)
 	Events              event.Manager
 }
 
@@ -36,6 +40,7 @@ type Proxy struct {
 
 	mu    sync.Mutex
 	conns []net.Conn
+	stop  context.CancelFunc
 }
 
 // StartProxy builds the proxy (offline mode, forwarding none, quotas and packet limiter off).
@@ -95,6 +100,21 @@ func StartProxy(o ProxyOpts) (*Proxy, error) {
 		return nil, err
 	}
 	h := &Proxy{P: p, Cfg: &cfg, Ev: ev, ln: ln}
+	if o.Sync != nil {
+		// The only public way to give the proxy a logger is the context of Proxy.Start (which also
+		// listens on cfg.Bind = 127.0.0.1:0; that listener is not used). Connections still come in
+		// through HandleConn below.
+		ctx, cancel := context.WithCancel(logr.NewContext(context.Background(), logr.New(o.Sync)))
+		h.stop = cancel
+		go func() { _ = p.Start(ctx) }()
+		select {
+		case <-o.Sync.ready:
+		case <-time.After(20 * time.Second):
+			cancel()
+			_ = ln.Close()
+			return nil, errors.New("proxy did not start")
+		}
+	}
 	go func() {
 		for {
 			c, err := ln.Accept()
@@ -138,6 +158,9 @@ func (h *Proxy) Player(name string, d time.Duration) proxy.Player {
 // Close stops the listener and closes all client connections accepted so far.
 func (h *Proxy) Close() {
 	_ = h.ln.Close()
+	if h.stop != nil {
+		h.stop()
+	}
 	h.mu.Lock()
 	cs := h.conns
 	h.conns = nil
